@@ -25,18 +25,31 @@ NAME_POOL = ["Edit", "FancyEdit", "Sep", "Panel", "Gallery", "Card", "Row", "Kno
 
 
 class Comp:
-    def __init__(self, name, d, root):
-        self.name, self.dir, self.root = name, d, root
+    def __init__(self, name, d, root, key=None):
+        self.name, self.dir, self.root = name, d, root   # root: the type name written in the file
+        self.key = key or name
         self.imports = []      # (target dir, spelling)
         self.cyclic = False
+        self.cands = None      # keys of the components the root name may denote (None: root is a Qt class)
+        self.resolved = None   # key of the component the root denotes, "" = unusable / undecided
+        self.frozen = False    # no random extra imports (they could change what its root name denotes)
 
 
 class Project:
+    """Components are keyed by name; a second component of the same name in another directory has the key name@dir.
+
+    What a root type name denotes is unambiguous by construction, except where a component of that name exists both in the
+    file's own directory and in ONE directory it imports explicitly.  The property does not fix a precedence for that case,
+    so it is decided by what qmluic itself reports when the component file is translated alone (probe): its .ui names the
+    root class and, under <customwidgets>, what that class extends.  The rest of the oracle (instances accept the base
+    class properties, extends/header entries) is then held against that answer.
+    """
+
     def __init__(self, rng, k):
         self.rng = rng
         self.dirs = rng.sample(DIR_POOL, rng.randint(1, 5))
         self.comps = {}
-        self.sources = []      # (rel path, text, instances [(id, type, [(prop, expected)])], root type)
+        self.sources = []
         self.features = set()
         names = rng.sample(NAME_POOL, rng.randint(2, 9))
         for n in names:
@@ -48,7 +61,7 @@ class Project:
                 self.features.add("component-of-component")
             else:
                 c = Comp(n, d, rng.choice(list(QT_BASES)))
-            self.comps[n] = c
+            self.comps[c.key] = c
         # extra imports: directory cycles, redundant imports
         for c in self.comps.values():
             for _ in range(rng.choice((0, 0, 1, 2))):
@@ -63,14 +76,84 @@ class Project:
             self.comps["CycA"], self.comps["CycB"] = a, b
             self.features.add("inheritance-cycle")
             if rng.random() < 0.5:
-                s = Comp("CycSelf", d1, "CycSelf")
-                s.cyclic = True
-                self.comps["CycSelf"] = s
+                sc = Comp("CycSelf", d1, "CycSelf")
+                sc.cyclic = True
+                self.comps["CycSelf"] = sc
+        # same-named components in different directories
+        if len(self.dirs) >= 2 and rng.random() < 0.5:
+            self.add_same_named(rng.choice(("shadow", "chain", "chain")))
+        self.compute_candidates()
         if self.has_dir_cycle():
             self.features.add("directory-cycle")
         self.features.add("dirs=%d" % len(self.dirs))
-        self.features.add("chain=%d" % max(self.chain(c.name) for c in self.comps.values() if not c.cyclic))
 
+    # ------------------------------------------------------------------ same names
+    def add_same_named(self, kind):
+        rng = self.rng
+        targets = [c for c in self.comps.values() if not c.cyclic and c.key == c.name]
+        if not targets:
+            return
+        t = rng.choice(targets)
+        others = [d for d in self.dirs if d != t.dir and not any(c.name == t.name and c.dir == d for c in self.comps.values())]
+        if not others:
+            return
+        d1 = rng.choice(others)
+        fresh = [n for n in NAME_POOL if not any(c.name == n for c in self.comps.values())]
+        if not fresh:
+            return
+        if kind == "shadow":
+            # d1/N (another Qt base) shadows or is shadowed by t = d2/N for a component of d1 that imports d2
+            if t.root not in QT_BASES:
+                return
+            s = Comp(t.name, d1, rng.choice([q for q in QT_BASES if q != t.root]), key="%s@%s" % (t.name, d1))
+            user = Comp(fresh[0], d1, t.name)
+            self.require(user, t.dir)
+            for c in (s, user):
+                c.frozen = True
+                self.comps[c.key] = c
+            self.features.add("same-name:own-directory-vs-import")
+        else:
+            # d1/N is rooted in N of the imported directory d2: two ancestors of one chain carry the same name
+            pnl = Comp(t.name, d1, t.name, key="%s@%s" % (t.name, d1))
+            self.require(pnl, t.dir)
+            user = Comp(fresh[0], d1, t.name)     # sees only d1/N
+            for c in (pnl, user):
+                c.frozen = True
+                self.comps[c.key] = c
+            self.features.add("same-name:chain")
+        # every earlier component that can now see two N must not pick up further imports either
+        for c in self.comps.values():
+            if c.root == t.name:
+                c.frozen = True
+
+    def providers(self, name, d, import_dirs):
+        return [c for c in self.comps.values() if c.name == name and (c.dir == d or c.dir in import_dirs)]
+
+    def compute_candidates(self):
+        self.valid = True
+        for c in self.comps.values():
+            if c.root in QT_BASES:
+                c.cands, c.resolved = None, None
+                continue
+            own = [x for x in self.comps.values() if x.name == c.root and x.dir == c.dir]
+            explicit = [x for x in self.comps.values() if x.name == c.root and x.dir != c.dir and x.dir in [t for t, _ in c.imports]]
+            if len(explicit) > 1 or len(own) > 1:
+                self.valid = False
+            c.cands = [x.key for x in own + explicit]
+            c.resolved = c.cands[0] if len(c.cands) == 1 else ""
+            if not c.cands:
+                self.valid = False
+
+    def ambiguous(self):
+        return [c for c in self.comps.values() if c.cands and len(c.cands) > 1 and not c.cyclic]
+
+    def settle(self, c, extends):
+        """Decide an ambiguous root from the `extends` qmluic reported for the root class in the component's own form."""
+        hits = [k for k in c.cands if self.comps[k].root == extends]
+        c.resolved = hits[0] if len(hits) == 1 else ""
+        return bool(c.resolved)
+
+    # ------------------------------------------------------------------ imports
     def spelling(self, frm, to):
         rel = os.path.relpath(to, frm)
         kind = self.rng.choice(("plain", "plain", "dot", "slash", "detour", "dotdot-up"))
@@ -84,7 +167,6 @@ class Project:
         elif kind == "detour":
             s = rel + "/../" + os.path.basename(to)
         elif kind == "dotdot-up":
-            # climb out of the project-relative directory and come back
             s = os.path.join("..", os.path.basename(frm), rel)
         else:
             s = rel
@@ -94,6 +176,8 @@ class Project:
         return s
 
     def require(self, c, target_dir, force=False):
+        if getattr(c, "frozen", False) and force:
+            return
         if target_dir == c.dir and not force:
             return
         if any(t == target_dir for t, _ in c.imports) and not force:
@@ -104,66 +188,79 @@ class Project:
         edges = {(c.dir, t) for c in self.comps.values() for t, _ in c.imports if t != c.dir}
         return any((b, a) in edges for a, b in edges)
 
-    def chain(self, name):
-        n = 0
-        while name in self.comps and n < 20:
-            name = self.comps[name].root
-            n += 1
-        return n
+    # ------------------------------------------------------------------ the model's answers
+    def root_comp(self, c):
+        return self.comps.get(c.resolved) if c.resolved else None
 
-    def qt_base(self, name):
-        seen = set()
-        while name in self.comps:
-            if name in seen:
-                return None
-            seen.add(name)
-            name = self.comps[name].root
-        return name
-
-    def ancestors(self, name):
+    def chain(self, c):
         out = []
-        while name in self.comps and name not in out:
-            out.append(name)
-            name = self.comps[name].root
+        while c is not None and c not in out and len(out) < 30:
+            out.append(c)
+            if c.root in QT_BASES:
+                break
+            c = self.root_comp(c)
         return out
+
+    def qt_base(self, c):
+        ch = self.chain(c)
+        last = ch[-1]
+        return last.root if last.root in QT_BASES and not any(x.cyclic for x in ch) else None
+
+    def usable(self):
+        return [c for c in self.comps.values() if not c.cyclic and self.qt_base(c)]
 
     def comp_text(self, c):
         lines = ["import qmluic.QtWidgets"] + ['import "%s"' % s for _, s in c.imports]
         return "\n".join(lines) + "\n%s {\n}\n" % c.root
 
+    def comp_path(self, c):
+        return os.path.join(c.dir, c.name + ".qml")
+
+    # ------------------------------------------------------------------ documents
     def make_sources(self):
         rng = self.rng
-        usable = [c for c in self.comps.values() if not c.cyclic]
+        usable = self.usable()
         cyc = [c for c in self.comps.values() if c.cyclic]
-        for k in range(rng.randint(1, 4)):
+        if usable:
+            self.features.add("chain=%d" % max(len(self.chain(c)) for c in usable))
+        if not usable:
+            return
+        n_docs = rng.randint(1, 4)
+        tries = 0
+        while len(self.sources) < n_docs and tries < n_docs * 6:
+            tries += 1
             d = rng.choice(self.dirs)
-            name = "Main%d" % k
+            name = "Main%d" % len(self.sources)
             doc = Comp(name, d, None)
             with_cycle = bool(cyc) and rng.random() < 0.4
             picks = rng.sample(usable, min(len(usable), rng.randint(1, 4)))
-            seq = []
-            for _ in range(rng.randint(2, 8)):
-                seq.append(rng.choice(picks))           # X, Y, X interleavings arise by chance
+            if any(c.frozen for c in usable) and rng.random() < 0.7:
+                picks = [rng.choice([c for c in usable if c.frozen])] + picks[:2]   # make the same-named part count
+            picks = list({c.key: c for c in picks}.values())
+            if len({c.name for c in picks}) != len(picks):
+                continue
+            seq = [rng.choice(picks) for _ in range(rng.randint(2, 8))]
             if len(picks) >= 2 and rng.random() < 0.6:
                 seq += [picks[0], picks[1], picks[0]]
                 self.features.add("interleaved-instances")
-            root = rng.choice(["QWidget", "QDialog", "QWidget"] + ([rng.choice(picks).name] if rng.random() < 0.5 else []))
-            if root in self.comps:
-                self.require(doc, self.comps[root].dir)
+            root = rng.choice(["QWidget", "QDialog", "QWidget"] + ([rng.choice(picks)] if rng.random() < 0.5 else []))
+            if isinstance(root, Comp):
+                self.require(doc, root.dir)
                 self.features.add("custom-root")
-            instances = []
-            body = []
+            instances, body = [], []
             for i, c in enumerate(seq):
                 self.require(doc, c.dir)
-                base = self.qt_base(c.name)
+                base = self.qt_base(c)
                 props = []
                 for anc in QT_BASES[base][0]:
-                    for (p, q, exp) in QT_BASES[anc][1]:
-                        if rng.random() < 0.35 and p not in [x[0] for x in props]:
-                            props.append((p, q, exp))
+                    for (pn, q, exp) in QT_BASES[anc][1]:
+                        if rng.random() < 0.35 and pn not in [x[0] for x in props]:
+                            props.append((pn, q, exp))
+                if c.frozen and not props:
+                    props.append(QT_BASES[base][1][0])     # the base class of a same-named chain is always exercised
                 oid = "inst%d" % i
-                instances.append((oid, c.name, [(p, e) for p, _, e in props]))
-                body.append("        %s { id: %s%s }" % (c.name, oid, "".join("; %s: %s" % (p, q) for p, q, _ in props)))
+                instances.append((oid, c.key, [(pn, e) for pn, _, e in props]))
+                body.append("        %s { id: %s%s }" % (c.name, oid, "".join("; %s: %s" % (pn, q) for pn, q, _ in props)))
                 if rng.random() < 0.3:
                     body.append("        QLabel { text: \"plain\" }")
             if with_cycle:
@@ -172,23 +269,30 @@ class Project:
                 body.append("        %s { id: cyc }" % cc.name)
                 self.features.add("instantiates-cyclic-component")
             if rng.random() < 0.4 and instances:
-                # nested container holding more instances
                 c = rng.choice(picks)
                 self.require(doc, c.dir)
                 body.append("        QGroupBox { QHBoxLayout { %s { id: nested } } }" % c.name)
-                instances.append(("nested", c.name, []))
-            lines = ["import qmluic.QtWidgets"] + ['import "%s"' % s for _, s in doc.imports]
-            text = "\n".join(lines) + "\n%s {\n    QVBoxLayout {\n%s\n    }\n}\n" % (root, "\n".join(body))
+                instances.append(("nested", c.key, []))
+            # every instantiated name must denote exactly one component from where the document stands
+            imp_dirs = [t for t, _ in doc.imports]
+            used = {self.comps[k] for _, k, _ in instances} | ({root} if isinstance(root, Comp) else set())
+            if any(self.providers(c.name, d, imp_dirs) != [c] for c in used):
+                continue
+            lines = ["import qmluic.QtWidgets"] + ['import "%s"' % sp for _, sp in doc.imports]
+            root_name = root.name if isinstance(root, Comp) else root
+            text = "\n".join(lines) + "\n%s {\n    QVBoxLayout {\n%s\n    }\n}\n" % (root_name, "\n".join(body))
             self.sources.append({"path": os.path.join(d, name + ".qml"), "text": text, "instances": instances,
-                                 "root": root, "with_cycle": with_cycle})
+                                 "root": root.key if isinstance(root, Comp) else root, "with_cycle": with_cycle})
 
-    def write(self, base):
+    def write_components(self, base):
         shutil.rmtree(base, ignore_errors=True)
         for d in self.dirs:
             os.makedirs(os.path.join(base, d), exist_ok=True)
         for c in self.comps.values():
-            with open(os.path.join(base, c.dir, c.name + ".qml"), "w") as f:
+            with open(os.path.join(base, self.comp_path(c)), "w") as f:
                 f.write(self.comp_text(c))
+
+    def write_sources(self, base):
         for s in self.sources:
             with open(os.path.join(base, s["path"]), "w") as f:
                 f.write(s["text"])
@@ -234,28 +338,34 @@ def judge_ui(v, proj, src, ui_bytes, lowercase, rp):
     listed = []
     for w in (cw.findall("customwidget") if cw is not None else []):
         listed.append(tuple(uiparse.text_of(w.find(t)) if w.find(t) is not None else None for t in ("class", "extends", "header")))
-    inst_types = {t for _, t, _ in src["instances"]} | ({src["root"]} if src["root"] in proj.comps else set())
-    allowed_extra = set()
-    for t in inst_types:
-        allowed_extra.update(proj.ancestors(t))
+    inst_comps = {proj.comps[k] for _, k, _ in src["instances"]} | ({proj.comps[src["root"]]} if src["root"] in proj.comps else set())
+    by_name = {c.name: c for c in inst_comps}       # unique per document by construction
+    inst_types = set(by_name)
+    allowed = {}                                    # name -> components of that name that may be listed (instantiated ones and their bases)
+    for c in inst_comps:
+        for x in proj.chain(c):
+            allowed.setdefault(x.name, [])
+            if x not in allowed[x.name]:
+                allowed[x.name].append(x)
     names = [l[0] for l in listed]
     for t in sorted(inst_types):
         if names.count(t) != 1:
             v.violation("customwidget-count", "%s: custom widget %s is listed %d times (instantiated: %s; listed: %s)"
                         % (src["path"], t, names.count(t), sorted(inst_types), names), rp)
     for (cls, ext, hdr) in listed:
-        if cls not in allowed_extra:
+        if cls not in allowed:
             v.violation("customwidget-spurious", "%s: <customwidget> %s is neither instantiated nor a base of an instantiated component" % (src["path"], cls), rp)
             continue
-        if names.count(cls) > 1 and cls not in inst_types:
+        if names.count(cls) > len(allowed[cls]) and cls not in inst_types:
             v.violation("customwidget-count", "%s: custom widget %s is listed %d times" % (src["path"], cls, names.count(cls)), rp)
-        c = proj.comps[cls]
+        cands = [by_name[cls]] if cls in by_name else allowed[cls]
         want_hdr = (cls.lower() if lowercase else cls) + ".h"
-        if ext != c.root or hdr != want_hdr:
-            v.violation("customwidget-entry", "%s: <customwidget> %s has extends=%r header=%r, expected extends=%r header=%r"
-                        % (src["path"], cls, ext, hdr, c.root, want_hdr), rp)
+        if ext not in [c.root for c in cands] or hdr != want_hdr:
+            v.violation("customwidget-entry", "%s: <customwidget> %s has extends=%r header=%r, expected extends in %r header=%r"
+                        % (src["path"], cls, ext, hdr, [c.root for c in cands], want_hdr), rp)
     objs = {name: n for _, name, _, n in uiparse.named_objects(root)}
-    for oid, t, props in src["instances"]:
+    for oid, key, props in src["instances"]:
+        t = proj.comps[key].name
         n = objs.get(oid)
         if n is None or n.attrs.get("class") != t:
             v.violation("instance-missing", "%s: instance %s of %s is %s in the form" % (src["path"], oid, t, "missing" if n is None else "of class %r" % n.attrs.get("class")), rp)
@@ -279,12 +389,38 @@ def judge_ui(v, proj, src, ui_bytes, lowercase, rp):
 def one_project(args):
     k, seed, tier, wd = args
     rng = common.rng_for(seed, "C18", tier, k)
-    proj = Project(rng, k)
-    proj.make_sources()
+    proj = None
+    for attempt in range(8):
+        proj = Project(common.rng_for(seed, "C18", tier, k, attempt), k)
+        if proj.valid:
+            break
     base = os.path.join(wd, "p%d" % k)
-    proj.write(base)
-    srcs = [s["path"] for s in proj.sources]
+    proj.write_components(base)
     lowercase = rng.random() < 0.8
+    # probe: what does qmluic say an ambiguous root name denotes?  (the component file translated alone)
+    probes = []
+    for n, c in enumerate(proj.ambiguous()):
+        st, err = run_cli(base, "probe%d" % n, [proj.comp_path(c)], True)
+        ext = None
+        ui = read_outputs(base, "probe%d" % n, proj.comp_path(c), True)[0]
+        if st == 0 and ui is not None:
+            try:
+                r = uiparse.parse(ui)
+                w = r.find("widget")
+                cw = r.find("customwidgets")
+                for e in (cw.findall("customwidget") if cw is not None else []):
+                    if uiparse.text_of(e.find("class")) == c.root and w is not None and w.attrs.get("class") == c.root:
+                        ext = uiparse.text_of(e.find("extends"))
+            except uiparse.UiSyntaxError:
+                pass
+        settled = proj.settle(c, ext) if ext is not None else False
+        probes.append({"component": proj.comp_path(c), "root": c.root, "candidates": c.cands, "status": st,
+                       "reported_extends": ext, "settled_as": c.resolved or None, "stderr": err[-300:]})
+        shutil.rmtree(os.path.join(base, "probe%d" % n), ignore_errors=True)
+    proj.probes = probes
+    proj.make_sources()
+    proj.write_sources(base)
+    srcs = [s["path"] for s in proj.sources]
     runs = []
     orders = [list(srcs)]
     if len(srcs) > 1:
@@ -295,7 +431,7 @@ def one_project(args):
         if o3 not in orders:
             orders.append(o3)
     # extra: also name component files themselves as sources, in front or behind
-    extra = [os.path.join(c.dir, c.name + ".qml") for c in proj.comps.values() if not c.cyclic]
+    extra = [proj.comp_path(c) for c in proj.usable()]
     if extra and rng.random() < 0.5:
         e = rng.sample(extra, min(len(extra), 2))
         orders.append(e + srcs)
@@ -315,7 +451,7 @@ def one_project(args):
                 outs.setdefault(s, []).append((tag, read_outputs(base, outdir, s, lowercase)))
     # from inside a sub directory, without an output directory
     sub = None
-    if rng.random() < 0.5:
+    if proj.sources and rng.random() < 0.5:
         s0 = proj.sources[0]
         cwd = os.path.join(base, os.path.dirname(s0["path"]))
         rel = [os.path.relpath(os.path.join(base, s), cwd) for s in srcs]
@@ -330,7 +466,7 @@ def run(tier, seed, replay=None):
     v = common.Verdict("C18", tier, seed)
     n_proj = 40 if tier == "quick" else 600
     feats = {}
-    n_inv = n_forms = 0
+    n_inv = n_forms = n_probes = n_settled = 0
     samples = []
     wd = common.workdir("c18")
     with ThreadPoolExecutor(max_workers=common.NCPU) as ex:
@@ -339,6 +475,17 @@ def run(tier, seed, replay=None):
                 feats[f] = feats.get(f, 0) + 1
             rp0 = {"files": files, "lowercase": lowercase}
             by_src = {s["path"]: s for s in proj.sources}
+            for pr in getattr(proj, "probes", []):
+                n_inv += 1
+                n_probes += 1
+                rp = dict(rp0, probe=pr)
+                if pr["status"] not in (0, 1):
+                    v.violation("no-termination-or-crash", "generate-ui %s ended with status %s" % (pr["component"], pr["status"]), rp)
+                elif pr["status"] == 0 and not pr["settled_as"]:
+                    v.violation("customwidget-entry", "%s: the form names root class %s extending %r, which is the root of none of the components "
+                                "of that name visible from the file (%s)" % (pr["component"], pr["root"], pr["reported_extends"], pr["candidates"]), rp)
+                elif pr["settled_as"]:
+                    n_settled += 1
             for tag, outdir, o, st, err in results:
                 n_inv += 1
                 rp = dict(rp0, sources=o, stderr=err[-1500:])
@@ -379,17 +526,23 @@ def run(tier, seed, replay=None):
                     if refs and o[0] is not None and o != refs[0]:
                         v.violation("order-dependent-output", "outputs of %s differ when run from the source's directory without -O" % s,
                                     dict(rp0, source=s, stderr=err[-800:]))
-            if len(samples) < 3 and "directory-cycle" in proj.features and len(proj.sources) > 1:
-                samples.append({"dirs": proj.dirs, "components": {c.name: {"dir": c.dir, "root": c.root, "imports": [s for _, s in c.imports]}
+            want_sample = ("directory-cycle" in proj.features and len(proj.sources) > 1 and len(samples) < 2) or \
+                (any(f.startswith("same-name") for f in proj.features) and proj.sources and not any("probes" in x for x in samples))
+            if want_sample and len(samples) < 4:
+                samples.append({"dirs": proj.dirs, "components": {c.key: {"dir": c.dir, "root": c.root, "imports": [s for _, s in c.imports]}
                                                                    for c in proj.comps.values()},
+                                "probes": [{k2: pr[k2] for k2 in ("component", "root", "candidates", "reported_extends", "settled_as")}
+                                           for pr in getattr(proj, "probes", [])],
                                 "sources": [s["path"] for s in proj.sources], "invocations": [r[2] for r in results]})
     return v.finish(
         evaluations=n_inv, distinct_nontrivial=len(feats),
         rule="generated projects (1-5 directories incl. nested/spaced, 2-12 components rooted in Qt classes or other components, "
-             "string imports in 6 spellings incl. '..' detours, mutually importing directories, mutually/self inheriting components) "
+             "string imports in 6 spellings incl. '..' detours, mutually importing directories, mutually/self inheriting components, "
+             "same-named components in different directories: own directory vs import, two same-named ancestors in one chain) "
              "run through the real CLI with all sources in 2-5 argument orders, each source alone, and from inside a sub directory; "
              "oracle: <customwidgets> == instantiated types once each (+ their component bases), extends/header per project model, "
              "base-class property values on instances, byte-identical outputs across invocations, exit within CPU budget; "
              "distinct = project feature classes observed",
-        samples=samples, projects=n_proj, invocations=n_inv, forms_judged=n_forms, features=feats, floor=6,
+        samples=samples, projects=n_proj, invocations=n_inv, forms_judged=n_forms, features=feats,
+        ambiguous_roots_probed=n_probes, ambiguous_roots_settled=n_settled, floor=6,
     )
